@@ -82,11 +82,26 @@ static int denied(const char *s) {
 static JanetCFunction asm_cfun = NULL;
 static JanetCFunction peg_match_cfun = NULL, peg_findall_cfun = NULL, peg_replace_cfun = NULL;
 static long n_pegs = 0;
+static JanetCFunction dbg_stack_cfun = NULL, dbg_lineage_cfun = NULL, disasm_cfun = NULL;
+static JanetCFunction ch_count_cfun = NULL, ch_cap_cfun = NULL, ch_full_cfun = NULL, ch_close_cfun = NULL, ch_take_cfun = NULL;
+static JanetCFunction core_cfun(JanetTable *env, const char *name) {
+    Janet v = janet_wrap_nil();
+    janet_resolve(env, janet_csymbol(name), &v);
+    return janet_checktype(v, JANET_CFUNCTION) ? janet_unwrap_cfunction(v) : NULL;
+}
 static void build_registry(void) {
     JanetTable *env = janet_core_env(NULL);
     Janet asmv = janet_wrap_nil();
     janet_resolve(env, janet_csymbol("asm"), &asmv);
     if (janet_checktype(asmv, JANET_CFUNCTION)) asm_cfun = janet_unwrap_cfunction(asmv);
+    dbg_stack_cfun = core_cfun(env, "debug/stack");
+    dbg_lineage_cfun = core_cfun(env, "debug/lineage");
+    disasm_cfun = core_cfun(env, "disasm");
+    ch_count_cfun = core_cfun(env, "ev/count");
+    ch_cap_cfun = core_cfun(env, "ev/capacity");
+    ch_full_cfun = core_cfun(env, "ev/full");
+    ch_close_cfun = core_cfun(env, "ev/chan-close");
+    ch_take_cfun = core_cfun(env, "ev/take");
     {
         Janet v = janet_wrap_nil();
         janet_resolve(env, janet_csymbol("peg/match"), &v);
@@ -195,6 +210,44 @@ static JanetSignal drive(JanetFiber *fiber, Janet in, Janet *out, int use_signal
 }
 
 static void exercise_value(Janet x, int variant, int depth);
+static int is_channel(Janet x);
+static void exercise_channel(Janet ch);
+
+/* introspection that reads the debug sections of an image: (debug/stack fiber), (debug/lineage fiber), (disasm f),
+ * (disasm f :symbolmap) ... */
+static void introspect_fiber(JanetFiber *fiber) {
+    Janet fv = janet_wrap_fiber(fiber);
+    if (dbg_stack_cfun) GUARDED({ Janet r = dbg_stack_cfun(1, &fv); light_ops(r); });
+    if (dbg_lineage_cfun) GUARDED({ Janet r = dbg_lineage_cfun(1, &fv); mix((uint32_t) janet_type(r)); });
+}
+static void introspect_function(JanetFunction *f) {
+    static const char *keys[] = {"symbolmap", "sourcemap", "bytecode", "constants", "environments", "defs", "slotcount", NULL};
+    Janet argv[2];
+    argv[0] = janet_wrap_function(f);
+    if (!disasm_cfun) return;
+    GUARDED({ Janet r = disasm_cfun(1, argv); mix((uint32_t) janet_type(r)); });
+    for (int i = 0; keys[i]; i++) {
+        argv[1] = janet_ckeywordv(keys[i]);
+        GUARDED({ Janet r = disasm_cfun(2, argv); mix((uint32_t) janet_type(r)); });
+    }
+}
+static int is_channel(Janet x) {
+    return janet_checktype(x, JANET_ABSTRACT) && !strcmp(janet_abstract_type(janet_unwrap_abstract(x))->name, "core/channel");
+}
+static void exercise_channel(Janet ch) {
+    Janet n = janet_wrap_integer(0);
+    if (ch_count_cfun) GUARDED({ n = ch_count_cfun(1, &ch); });
+    if (ch_cap_cfun) GUARDED({ (void) ch_cap_cfun(1, &ch); });
+    if (ch_full_cfun) GUARDED({ (void) ch_full_cfun(1, &ch); });
+    /* taking from a channel that has items returns at once (no suspension outside the event loop) */
+    for (int i = 0; i < 3; i++) {
+        int have = 0;
+        if (ch_count_cfun) GUARDED({ n = ch_count_cfun(1, &ch); have = janet_checkint(n) && janet_unwrap_integer(n) > 0; });
+        if (!have || !ch_take_cfun) break;
+        GUARDED({ Janet r = ch_take_cfun(1, &ch); light_ops(r); });
+    }
+    if (ch_close_cfun) GUARDED({ (void) ch_close_cfun(1, &ch); });
+}
 
 static void exercise_function(JanetFunction *f, int variant, int depth) {
     Janet argv[5];
@@ -210,6 +263,7 @@ static void exercise_function(JanetFunction *f, int variant, int depth) {
     Janet out = janet_wrap_nil();
     JanetFiber *fiber = NULL;
     n_calls++;
+    if (variant == 0) introspect_function(f);
     fiber = janet_fiber(f, 64, argc, argv);
     if (fiber == NULL) { mix(7); return; }
     janet_gcroot(janet_wrap_fiber(fiber));
@@ -225,7 +279,7 @@ static void exercise_function(JanetFunction *f, int variant, int depth) {
         mix((uint32_t) sig);
     }
     collect_now();
-    light_ops(janet_wrap_fiber(fiber));
+    if (fiber->stacktop < 20000) light_ops(janet_wrap_fiber(fiber));
     janet_gcunroot(out);
     janet_gcunroot(janet_wrap_fiber(fiber));
 }
@@ -236,6 +290,7 @@ static void exercise_fiber(JanetFiber *fiber, int variant, int depth) {
     (void) depth;
     janet_gcroot(janet_wrap_fiber(fiber));
     mix((uint32_t) janet_fiber_status(fiber));
+    introspect_fiber(fiber);
     switch (variant % 5) {
         case 4: sig = JANET_SIGNAL_OK; GUARDED({ want_suspend = 1; out = janet_next(janet_wrap_fiber(fiber), janet_wrap_nil()); }); want_suspend = 0; janet_vm.auto_suspend = 0; break;
         default:
@@ -265,7 +320,11 @@ static void exercise_fiber(JanetFiber *fiber, int variant, int depth) {
         mix((uint32_t) sig);
     }
     collect_now();
-    light_ops(janet_wrap_fiber(fiber));
+    /* a runaway (but legal) recursion can leave millions of frames: printing / marshalling / listing them is only slow */
+    if (fiber->stacktop < 20000) {
+        light_ops(janet_wrap_fiber(fiber));
+        introspect_fiber(fiber);
+    }
     janet_gcunroot(out);
     janet_gcunroot(janet_wrap_fiber(fiber));
 }
@@ -315,6 +374,9 @@ static void exercise_value(Janet x, int variant, int depth) {
         case JANET_FIBER:
             exercise_fiber(janet_unwrap_fiber(x), variant, depth);
             break;
+        case JANET_ABSTRACT:
+            if (variant == 0 && is_channel(x)) exercise_channel(x);
+            break;
         case JANET_ARRAY:
         case JANET_TUPLE: {
             const Janet *vals; int32_t len;
@@ -344,6 +406,7 @@ static void exercise_value(Janet x, int variant, int depth) {
 static int has_code(Janet x, int depth) {
     switch (janet_type(x)) {
         case JANET_FUNCTION: case JANET_FIBER: return 1;
+        case JANET_ABSTRACT: return is_channel(x);
         case JANET_ARRAY: case JANET_TUPLE: {
             const Janet *vals; int32_t len;
             janet_indexed_view(x, &vals, &len);
@@ -403,6 +466,7 @@ static void do_unmarshal(const uint8_t *bytes, size_t len, int exercise) {
     light_ops(x);
     int code = has_code(x, 0);
     if (is_peg(x)) { exercise_peg(x); collect_now(); }
+    if (is_channel(x)) { exercise_channel(x); collect_now(); light_ops(x); }
     janet_gcunroot(x);
     if (code) {
         int nvar = 6;
